@@ -207,7 +207,7 @@ class _Capture(logging.Handler):
             self.evals.append((int(mt.group(1)), int(mt.group(2))))
 
 
-TIME_LIMIT = 2.0      # CPU seconds per solve; checked at every objective call
+TIME_LIMIT = 1.5      # CPU seconds per solve; checked at every objective call
 
 
 def run_solve(problem, capture_log=True, time_limit=TIME_LIMIT):
